@@ -1,5 +1,6 @@
-//! C14 Miri arm: sequential reference, then two threads concurrently calling
-//! decompress_deflate_stream + recompress_deflate_stream on the same shared stream.
+//! C14 Miri arm: two threads make the first calls of the process (cold start) - both call
+//! decompress_deflate_stream + recompress_deflate_stream on the same shared stream - then the
+//! sequential reference is computed and compared.
 //! Exit 0 = all results identical and Miri saw no data race / uninitialised read.
 mod streams;
 
@@ -14,27 +15,29 @@ fn run(stream: &[u8], verify: bool) -> (Vec<u8>, Vec<u8>, usize, Vec<u8>) {
 }
 
 fn main() {
-    // which of the three embedded streams: argv[1] (default 0)
-    let which: usize = std::env::args().nth(1).and_then(|s| s.parse().ok()).unwrap_or(0) % 3;
+    // which of the embedded streams: argv[1] (default 0); stream 3 has no 3 byte match, so the
+    // estimator works with the 4 byte hash candidates (libdeflate fast, zlib-ng, crc32c)
+    let which: usize = std::env::args().nth(1).and_then(|s| s.parse().ok()).unwrap_or(0) % 4;
     let stream: Vec<u8> = match which {
         0 => streams::STREAM_0.to_vec(),
         1 => streams::STREAM_1.to_vec(),
-        _ => streams::STREAM_2.to_vec(),
+        2 => streams::STREAM_2.to_vec(),
+        _ => streams::STREAM_3.to_vec(),
     };
     let shared: Arc<Vec<u8>> = Arc::new(stream);
+    // COLD START: the two threads make the first calls of the process (anything initialised
+    // lazily on first use is initialised under concurrency); the sequential reference is
+    // computed afterwards
+    let mut handles = Vec::new();
+    for _t in 0..2 {
+        let shared = shared.clone();
+        handles.push(std::thread::spawn(move || run(&shared, false)));
+    }
+    let results: Vec<_> = handles.into_iter().map(|h| h.join().expect("thread panicked")).collect();
     // sequential reference (verify = true exercises the in-call reconstruction as well)
     let reference = run(&shared, true);
-    let mut handles = Vec::new();
-    for t in 0..2 {
-        let shared = shared.clone();
-        let reference = reference.clone();
-        handles.push(std::thread::spawn(move || {
-            let a = run(&shared, false);
-            assert_eq!(a, reference, "thread {}: result differs from the sequential reference", t);
-        }));
-    }
-    for h in handles {
-        h.join().expect("thread panicked");
+    for (t, r) in results.iter().enumerate() {
+        assert_eq!(*r, reference, "thread {}: result differs from the sequential reference", t);
     }
     println!("c14-miri ok");
 }
